@@ -1,4 +1,10 @@
-"""Per-property configuration of the checks (see DESIGN.md section 4)."""
+"""Per-property configuration of the checks: one JSON file per property under
+propcfg/ (see BUILDER_GUIDE.md for the keys)."""
+import glob
+import json
+import os
+
+_here = os.path.dirname(os.path.abspath(__file__))
 
 COMMON_TB = [
     "Coq 8.16.1 kernel incl. the vm_compute virtual machine (no native_compute); coqc parser for generated case files",
@@ -7,26 +13,15 @@ COMMON_TB = [
     "Go harness under /verif/harness (case generation, canonicalisation, direct oracles, Coq term printer) and the Go toolchain/runtime",
 ]
 
-PROPS = {
-    "C16": {
-        "harness": "c16",
-        "props_file": "props/Properties_C16.v",
-        "coq_targets": ["props/Properties_C16.vo"],
-        "model_targets": ["model/Announce_Receiver.vo"],
-        "trusted_base": COMMON_TB + [
-            "harness/cmd/astgen (go/parser based): Gen_Sync_announce.v is the synchronisation skeleton of announce/receiver.go, regenerated every run",
-            "semantics given to Go mutex / channel / select / context in model/C16_ReceiverClose.v",
-        ],
-        "technique": "Coq proof over a thread-level transition system + regenerated sync skeleton + exhaustive sequential-history correspondence",
-        "level_text": "Theorems in Coq over all schedules of a transition-system model of Receiver.{Close,Direct,Next,UncacheCid,watch}: mutex released on every return path (over the skeleton regenerated from the source), mutex free when idle, holder never blocks, no deadlock, late calls get the closed error, Close idempotent. Tied to the code by the regenerated skeleton and by exhaustive sequential histories (length<=4/5 over 8 calls) run on the real Receiver and accepted by the model, plus concurrent rounds. Partial: real scheduling is sampled.",
-        "level_note": "Trusted: Coq kernel+vm_compute, the model's semantics of mutex/select/context, astgen, the harness; goroutine scheduling is sampled not enumerated.",
-        "assumptions": [
-            "goroutine scheduling is sampled (concurrent rounds), not enumerated; the theorems quantify over all schedules of the model",
-            "'promptly' = a watchdog bound at run time, an enabled step / bounded own-steps in the model",
-            "pubsub topic / libp2p host internals are outside the model (watcher modelled as a loop that exits on cancellation)",
-        ],
-    },
-}
+PROPS = {}
+for _f in sorted(glob.glob(os.path.join(_here, "propcfg", "C*.json"))):
+    _c = json.load(open(_f))
+    _pid = os.path.basename(_f)[:-5]
+    if _c.get("disabled"):
+        continue
+    _tb = [t for t in _c.get("trusted_base", []) if t not in COMMON_TB]
+    _c["trusted_base"] = COMMON_TB + _tb
+    PROPS[_pid] = _c
 
 ALL_IDS = ["C%02d" % i for i in range(1, 21)]
 # properties without a registered check yet (kept current as checks land)
